@@ -42,7 +42,7 @@ Theorem C06_request_executed_once :
                bc_write := true; bc_addr := f_addr f; bc_bsize := f_bsize f; bc_payload := f_payload f; bc_room := 0
              |} in
            regp_process p r backend = ([call], verdict_reply p f (backend call) [] 0).
-Proof. exact process_request. Qed.
+Proof. exact (@process_request). Qed.
 Print Assumptions C06_request_executed_once.
 
 (* the reply for any of the twelve verdicts, received by the requester: matching response type, the verdict as code, the request's sequence number and address, and as payload exactly the delivered words (acknowledge), the buffer size resp. the reported address as four big-endian octets (ERXOVERFLOW/ETXOVERFLOW resp. EUNMAPPED..EINVALID) in octet semantics, nothing otherwise *)
@@ -75,7 +75,7 @@ Theorem C06_reply_is_faithful :
                rr_reply := [];
                rr_rest := plain_src oct r calls'
              |} /\ (vd_status v <> R_ACK -> ms = M8) /\ (vd_status v = R_ACK -> ms = MAuto /\ n = ackn).
-Proof. exact reply_decodes. Qed.
+Proof. exact (@reply_decodes). Qed.
 Print Assumptions C06_reply_is_faithful.
 
 (* the same reply as a conforming frame of the header encoder (what C08 is about) *)
@@ -96,7 +96,7 @@ Theorem C06_reply_shape :
                    (crc (reply_payload p v ackpl))) (reply_payload p v ackpl)) /\
            conforming p ms (req2resp (f_type f)) (vd_status v) (f_seq f) (f_addr f) n (reply_payload p v ackpl) /\
            (vd_status v <> R_ACK -> ms = M8) /\ (vd_status v = R_ACK -> ms = MAuto /\ n = ackn).
-Proof. exact reply_shape. Qed.
+Proof. exact (@reply_shape). Qed.
 Print Assumptions C06_reply_shape.
 
 (* responses and meta messages cause neither an access nor a reply *)
@@ -104,7 +104,7 @@ Theorem C06_responses_and_meta_are_silent :
   forall (p : regp) (r : recv_result) (backend : backend_call -> verdict) (f : rframe),
          rr_rc r = RcOk ->
          rr_errid r = None -> rr_frame r = Some f -> is_request f = false -> regp_process p r backend = ([], Some []).
-Proof. exact process_silent. Qed.
+Proof. exact (@process_silent). Qed.
 Print Assumptions C06_responses_and_meta_are_silent.
 
 (* a frame that failed reception (channel error, any error id, no frame) or is no request never causes a memory access *)
@@ -113,7 +113,7 @@ Theorem C06_failed_reception_never_executes :
          (exists e : errno, rr_rc r = RcChannel e) \/
          rr_errid r <> None \/ rr_frame r = None \/ (exists f : rframe, rr_frame r = Some f /\ is_request f = false) ->
          fst (regp_process p r backend) = [].
-Proof. exact process_no_access. Qed.
+Proof. exact (@process_no_access). Qed.
 Print Assumptions C06_failed_reception_never_executes.
 
 (* payload faults of requests are answered with EPAYLOADCRC / EPAYLOADSIZE (C07), of other frames with nothing *)
@@ -132,7 +132,7 @@ Theorem C06_payload_faults_are_answered :
                                  | _ => false
                                  end then R_EPAYLOADCRC else R_EPAYLOADSIZE)
              else [])).
-Proof. exact process_payload_fault. Qed.
+Proof. exact (@process_payload_fault). Qed.
 Print Assumptions C06_payload_faults_are_answered.
 
 (* in any session history every round performs at most one access (and releases what it allocated, C09) *)
@@ -142,7 +142,7 @@ Theorem C06_every_round_of_a_session :
          ss_allocs st = ss_frees st ->
          ss_allocs st' = ss_frees st' /\
          Forall (fun rd : round => rd_allocs rd = rd_frees rd /\ (length (rd_calls rd) <= 1)%nat) rs.
-Proof. exact serve_balanced. Qed.
+Proof. exact (@serve_balanced). Qed.
 Print Assumptions C06_every_round_of_a_session.
 
 
